@@ -1,0 +1,15 @@
+//go:build verif
+
+package cert
+
+import "math/rand"
+
+// VerifWithRandom (build tag verif only) runs f with the package-wide random
+// source replaced by r, and restores the previous source afterwards. It lets an
+// external harness script the draws behind serial numbers.
+func VerifWithRandom(r *rand.Rand, f func()) {
+	old := defaultRandom
+	defaultRandom = r
+	defer func() { defaultRandom = old }()
+	f()
+}
